@@ -181,12 +181,24 @@ func main() {
 		if !filepath.IsAbs(rp) {
 			rp = filepath.Join(root, rp)
 		}
-		c := exec.Command(bin, "-test.run", "^TestReplay$", "-test.count=1", "-test.timeout", "10m")
+		runArg := "^TestReplay$"
+		if i := strings.Index(rp, "/testdata/fuzz/"); i >= 0 {
+			// a crasher saved by the native fuzzer: testdata/fuzz/<Target>/<name>
+			parts := strings.Split(rp[i+len("/testdata/fuzz/"):], "/")
+			if len(parts) == 2 {
+				runArg = "^" + parts[0] + "$/^" + parts[1] + "$"
+			}
+		}
+		c := exec.Command(bin, "-test.run", runArg, "-test.count=1", "-test.timeout", "10m")
 		c.Dir = pkgDir
 		c.Env = append(append([]string{}, env...), "VERIF_REPLAY="+rp, "VERIF_SHARD=0", "VERIF_SHARDS=1", "VERIF_PARTS_DIR="+filepath.Join(build, "parts-replay"))
 		out, err := c.CombinedOutput()
 		os.Stdout.Write(out)
 		if bytes.Contains(out, []byte("\nVIOLATION property=")) {
+			exit(1)
+		}
+		if err != nil && runArg != "^TestReplay$" {
+			fmt.Printf("VIOLATION property=%s replay=%s\n  detail: the saved fuzz input still fails its target\n", ID, rp)
 			exit(1)
 		}
 		if err != nil && (bytes.Contains(out, []byte("fatal error:")) || bytes.Contains(out, []byte("SIGSEGV")) || bytes.Contains(out, []byte("unexpected fault address"))) {
